@@ -427,3 +427,6 @@ func Harness_libmacros() {
 	}
 	vrt.Reach("end")
 }
+
+// MacroProgram returns macro definitions and a call form (for other properties' harnesses).
+func MacroProgram() (def MalType, callForm MalType) { return macroProgram() }
